@@ -3,7 +3,8 @@ import CentrifugeVerif.Gen.RedisPushFmt
 /-!
 # Model of the Redis PUB/SUB payload framing (C33)
 
-Go side, mirrored line by line (`/repo/broker_redis.go`):
+Go side, mirrored line by line (`/repo/broker_redis.go`, including the bounds checks of commit
+e8dc9ebe "fix: decoding a malformed Redis PUB/SUB payload no longer panics"):
 * `extractPushData(data []byte)`  →  `extractPushData`
 * `parseDeltaPush(input string)`   →  `parseDeltaPush` (= `deltaHead` then `deltaBody`)
 * `strconv.ParseUint(s, 10, 64)`   →  `parseUint`,  `strconv.Atoi` → `atoi`
@@ -11,9 +12,14 @@ Go side, mirrored line by line (`/repo/broker_redis.go`):
 Go slice expressions whose bounds come from *declared* lengths (`input[:prevPayloadLength]`,
 `input[prevPayloadLength+1:]`, `input[:payloadLength]`, `stringHeader[3:]`) are modelled with
 `sliceTo` / `sliceFrom`, which yield the explicit outcome `Outcome.panic` when Go would raise a
-slice-bounds run-time panic.  Slices whose bounds come from a preceding `IndexByte`/`Index`
-(`input[:idx]`, `input[idx+1:]`, `data[2+pos+2:]`) are always in range and are modelled by
-`take`/`drop`.
+slice-bounds run-time panic — where the guards in front of them exclude this outcome is a theorem
+(`Props/C33.lean`), not a modelling decision.  `prevPayloadLength+1` is Go `int` arithmetic and
+wraps around at MaxInt64 (`goAdd1`).  Slices whose bounds come from a
+preceding `IndexByte`/`Index` (`input[:idx]`, `input[idx+1:]`, `data[2+pos+2:]`) are always in
+range and are modelled by `take`/`drop`.
+
+The functions with suffix `Pre` are the code as it was *before* that commit (no guards); they are
+kept to state exactly which inputs used to panic and that the fix changed nothing else.
 
 Lua side: the framing expressions are the generated piece lists of `Gen/RedisPushFmt.lean`,
 rendered by `render`.  Lua 5.1 converts numbers with `"%.14g"`; `luaNum` models that conversion
@@ -165,8 +171,8 @@ def deltaHead (input : Bytes) : Except DErr DeltaHead :=
             | none => .error .badPrevLen
             | some pl => .ok { offset := offset, epoch := epoch, prevLen := pl, rest := input }
 
-/-- `payload_length:payload` part -/
-def deltaTail (h : DeltaHead) (prev input : Bytes) : Outcome (Except DErr DeltaPush) :=
+/-- pre-fix `payload_length:payload` part (no `l < 0` guard) -/
+def deltaTailPre (h : DeltaHead) (prev input : Bytes) : Outcome (Except DErr DeltaPush) :=
   match splitColon input with
   | none => .val (.error .missingPayload)
   | some (lS, input) =>
@@ -179,18 +185,18 @@ def deltaTail (h : DeltaHead) (prev input : Bytes) : Outcome (Except DErr DeltaP
         .val (.ok { offset := h.offset, epoch := h.epoch, prevLen := h.prevLen, prev := prev,
                     payloadLen := l, payload := payload })
 
-/-- second half of `parseDeltaPush`: the slices by declared lengths (may panic). -/
-def deltaBody (h : DeltaHead) : Outcome (Except DErr DeltaPush) :=
+/-- pre-fix second half of `parseDeltaPush`: the slices by declared lengths (may panic). -/
+def deltaBodyPre (h : DeltaHead) : Outcome (Except DErr DeltaPush) :=
   if (h.rest.length : Int) < h.prevLen then .val (.error .shortPrev)
   else
     (sliceTo h.rest h.prevLen).bind fun prev =>          -- prevPayload := input[:prevPayloadLength]
     (sliceFrom h.rest (h.prevLen + 1)).bind fun input => -- input = input[prevPayloadLength+1:]
-    deltaTail h prev input
+    deltaTailPre h prev input
 
-def parseDeltaPush (input : Bytes) : Outcome (Except DErr DeltaPush) :=
+def parseDeltaPushPre (input : Bytes) : Outcome (Except DErr DeltaPush) :=
   match deltaHead input with
   | .error e => .val (.error e)
-  | .ok h => deltaBody h
+  | .ok h => deltaBodyPre h
 
 /-! ## extractPushData -/
 
@@ -216,8 +222,8 @@ def extractJoinLeave (data content : Bytes) (typ : Nat) : Outcome Push :=
     .val { data := content.drop (pos + 2), typ := typ, epoch := [], offset := 0, delta := false,
            prev := [], ok := true }
 
-/-- case `'p'`: `p1:offset:epoch__payload` -/
-def extractPositioned (data content : Bytes) : Outcome Push :=
+/-- pre-fix case `'p'` (no header-length guard) -/
+def extractPositionedPre (data content : Bytes) : Outcome Push :=
   match indexSep content with
   | none => .val (failWith data)
   | some 0 => .val (failWith data)
@@ -234,14 +240,14 @@ def extractPositioned (data content : Bytes) : Outcome Push :=
              prev := [], ok := r.isOk }
 
 /-- case `'d'` -/
-def extractDelta (content : Bytes) : Outcome Push :=
-  (parseDeltaPush content).bind fun r =>
+def extractDeltaPre (content : Bytes) : Outcome Push :=
+  (parseDeltaPushPre content).bind fun r =>
   match r with
   | .error _ => .val (failWith [])
   | .ok d => .val { data := d.payload, typ := 0, epoch := d.epoch, offset := d.offset, delta := true,
                     prev := d.prev, ok := true }
 
-def extractPushData (data : Bytes) : Outcome Push :=
+def extractPushDataPre (data : Bytes) : Outcome Push :=
   if data.take 2 ≠ [95, 95] then
     .val { data := data, typ := 0, epoch := [], offset := 0, delta := false, prev := [], ok := true }
   else
@@ -251,11 +257,11 @@ def extractPushData (data : Bytes) : Outcome Push :=
     | ct :: _ =>
       if ct = 106 then extractJoinLeave data content 1        -- 'j'
       else if ct = 108 then extractJoinLeave data content 2   -- 'l'
-      else if ct = 112 then extractPositioned data content    -- 'p'
-      else if ct = 100 then extractDelta content              -- 'd'
+      else if ct = 112 then extractPositionedPre data content    -- 'p'
+      else if ct = 100 then extractDeltaPre content              -- 'd'
       else .val (failWith [])
 
-/-! ## Which inputs panic (independent classifier, the signature of finding C33-1) -/
+/-! ## Which inputs made the pre-fix code panic (independent classifier; findings C33-1…4, fixed) -/
 
 inductive PanicKind where
   | pHeaderShort          -- "__p" followed by the next "__" after fewer than 3 header bytes
@@ -295,42 +301,52 @@ def panicClass (data : Bytes) : Option PanicKind :=
       else if ct = 100 then deltaPanicClass (ct :: tl)
       else none
 
-/-! ## The minimal fix (bounds checks returning the malformed-data error), as a model -/
+/-! ## The current code (with the bounds checks of e8dc9ebe) -/
 
-def deltaTailFixed (h : DeltaHead) (prev input : Bytes) : Outcome (Except DErr DeltaPush) :=
+def deltaTail (h : DeltaHead) (prev input : Bytes) : Outcome (Except DErr DeltaPush) :=
   match splitColon input with
   | none => .val (.error .missingPayload)
   | some (lS, input) =>
     match atoi lS with
     | none => .val (.error .badPayloadLen)
     | some l =>
-      if l < 0 ∨ (input.length : Int) < l then .val (.error .shortPayload)   -- added `l < 0`
+      -- `if payloadLength < 0 || len(input) < payloadLength { return error }`
+      if l < 0 ∨ (input.length : Int) < l then .val (.error .shortPayload)
       else
         (sliceTo input l).bind fun payload =>
         .val (.ok { offset := h.offset, epoch := h.epoch, prevLen := h.prevLen, prev := prev,
                     payloadLen := l, payload := payload })
 
-def deltaBodyFixed (h : DeltaHead) : Outcome (Except DErr DeltaPush) :=
-  -- `if prevPayloadLength < 0 || len(input) < prevPayloadLength+1 { return error }`
-  if h.prevLen < 0 ∨ (h.rest.length : Int) < h.prevLen + 1 then .val (.error .shortPrev)
-  else
-    (sliceTo h.rest h.prevLen).bind fun prev =>
-    (sliceFrom h.rest (h.prevLen + 1)).bind fun input =>
-    deltaTailFixed h prev input
+def maxInt64 : Int := 9223372036854775807
+def minInt64 : Int := -9223372036854775808
 
-def parseDeltaPushFixed (input : Bytes) : Outcome (Except DErr DeltaPush) :=
+/-- Go `x + 1` on `int` (64 bit): wraps around at `MaxInt64` (for `x` in the `int` range, which is
+what `Atoi` returns). -/
+def goAdd1 (x : Int) : Int := if x = maxInt64 then minInt64 else x + 1
+
+def deltaBody (h : DeltaHead) : Outcome (Except DErr DeltaPush) :=
+  -- `if prevPayloadLength < 0 || len(input) < prevPayloadLength+1 { return error }`
+  -- NB `prevPayloadLength+1` is Go `int` arithmetic: for MaxInt64 it wraps to MinInt64, the guard
+  -- is then false and the slice below is out of range (finding C33-6).
+  if h.prevLen < 0 ∨ (h.rest.length : Int) < goAdd1 h.prevLen then .val (.error .shortPrev)
+  else
+    (sliceTo h.rest h.prevLen).bind fun prev =>          -- prevPayload := input[:prevPayloadLength]
+    (sliceFrom h.rest (goAdd1 h.prevLen)).bind fun input => -- input = input[prevPayloadLength+1:]
+    deltaTail h prev input
+
+def parseDeltaPush (input : Bytes) : Outcome (Except DErr DeltaPush) :=
   match deltaHead input with
   | .error e => .val (.error e)
-  | .ok h => deltaBodyFixed h
+  | .ok h => deltaBody h
 
-def extractPositionedFixed (data content : Bytes) : Outcome Push :=
+def extractPositioned (data content : Bytes) : Outcome Push :=
   match indexSep content with
   | none => .val (failWith data)
   | some 0 => .val (failWith data)
   | some pos =>
     let header := content.take pos
     let rest := content.drop (pos + 2)
-    if header.length < 3 then .val (failWith rest)         -- added check
+    if header.length < 3 then .val (failWith rest)         -- `if len(stringHeader) < 3 { return rest, …, false }`
     else
     (sliceFrom header 3).bind fun sh =>
     match indexByte 58 sh with
@@ -341,14 +357,14 @@ def extractPositionedFixed (data content : Bytes) : Outcome Push :=
       .val { data := rest, typ := 0, epoch := sh.drop (p + 1), offset := r.value, delta := false,
              prev := [], ok := r.isOk }
 
-def extractDeltaFixed (content : Bytes) : Outcome Push :=
-  (parseDeltaPushFixed content).bind fun r =>
+def extractDelta (content : Bytes) : Outcome Push :=
+  (parseDeltaPush content).bind fun r =>
   match r with
   | .error _ => .val (failWith [])
   | .ok d => .val { data := d.payload, typ := 0, epoch := d.epoch, offset := d.offset, delta := true,
                     prev := d.prev, ok := true }
 
-def extractPushDataFixed (data : Bytes) : Outcome Push :=
+def extractPushData (data : Bytes) : Outcome Push :=
   if data.take 2 ≠ [95, 95] then
     .val { data := data, typ := 0, epoch := [], offset := 0, delta := false, prev := [], ok := true }
   else
@@ -358,9 +374,23 @@ def extractPushDataFixed (data : Bytes) : Outcome Push :=
     | ct :: _ =>
       if ct = 106 then extractJoinLeave data content 1
       else if ct = 108 then extractJoinLeave data content 2
-      else if ct = 112 then extractPositionedFixed data content
-      else if ct = 100 then extractDeltaFixed content
+      else if ct = 112 then extractPositioned data content
+      else if ct = 100 then extractDelta content
       else .val (failWith [])
+
+/-- The inputs on which the *current* code still panics: a delta header whose declared
+prev-payload length is exactly MaxInt64 (`prevPayloadLength+1` overflows in the guard). -/
+def overflowClass (data : Bytes) : Bool :=
+  if data.take 2 ≠ [95, 95] then false
+  else
+    match data.drop 2 with
+    | [] => false
+    | ct :: tl =>
+      if ct = 100 then
+        match deltaHead (ct :: tl) with
+        | .ok h => h.prevLen == maxInt64
+        | .error _ => false
+      else false
 
 /-! ## Builders (Lua side) -/
 
